@@ -3,6 +3,7 @@ package bridge
 import (
 	"bytes"
 	"fmt"
+	"google.golang.org/protobuf/encoding/protowire"
 	"math"
 	"sort"
 	"strings"
@@ -98,7 +99,10 @@ func valueBytes(fd protoreflect.FieldDescriptor, v protoreflect.Value) string {
 
 func fieldsOfBoth(a, b protoreflect.Message) []protoreflect.FieldDescriptor {
 	seen := map[protoreflect.FullName]protoreflect.FieldDescriptor{}
-	f := func(fd protoreflect.FieldDescriptor, _ protoreflect.Value) bool { seen[fd.FullName()] = fd; return true }
+	f := func(fd protoreflect.FieldDescriptor, _ protoreflect.Value) bool {
+		seen[fd.FullName()] = fd
+		return true
+	}
 	a.Range(f)
 	b.Range(f)
 	var out []protoreflect.FieldDescriptor
@@ -178,10 +182,39 @@ func diffMsg(path string, want, got protoreflect.Message, out *[]DiffItem, depth
 			}
 		}
 	}
-	if !bytes.Equal(want.GetUnknown(), got.GetUnknown()) {
+	if !bytes.Equal(want.GetUnknown(), got.GetUnknown()) && !sameUnknownPerNumber(want.GetUnknown(), got.GetUnknown()) {
 		*out = append(*out, DiffItem{Path: path + "<unknown>", Shape: "unknown-fields", Kind: "unknown-changed",
 			Note: fmt.Sprintf("%x -> %x", clipB(want.GetUnknown()), clipB(got.GetUnknown()))})
 	}
+}
+
+// sameUnknownPerNumber is message equality's view of unknown fields (proto.Equal): for every field number
+// the raw occurrences are the same bytes in the same order; the relative order of different numbers is not
+// part of a message's value.
+func sameUnknownPerNumber(a, b protoreflect.RawFields) bool {
+	split := func(u protoreflect.RawFields) (map[protowire.Number][]byte, bool) {
+		m := map[protowire.Number][]byte{}
+		for len(u) > 0 {
+			num, _, n := protowire.ConsumeField(u)
+			if n < 0 {
+				return nil, false
+			}
+			m[num] = append(m[num], u[:n]...)
+			u = u[n:]
+		}
+		return m, true
+	}
+	ma, ok1 := split(a)
+	mb, ok2 := split(b)
+	if !ok1 || !ok2 || len(ma) != len(mb) {
+		return false
+	}
+	for n, x := range ma {
+		if !bytes.Equal(x, mb[n]) {
+			return false
+		}
+	}
+	return true
 }
 
 func valueText(fd protoreflect.FieldDescriptor, v protoreflect.Value) string {
